@@ -1,7 +1,9 @@
 package main
 
 import (
+	"go/constant"
 	"go/token"
+	"go/types"
 	"sort"
 	"strconv"
 	"strings"
@@ -765,9 +767,16 @@ func (p *Program) possibleValues(v ssa.Value) []ssa.Value {
 			if x.Op == token.MUL {
 				if a, ok := x.X.(*ssa.Alloc); ok {
 					sts, okk := p.storesReaching(a, x)
-					if okk && len(sts) > 0 {
+					zero := p.mayHoldZero(a, x)
+					// allocs that are never stored to as a whole (composite literals built field by
+					// field) stay unresolved: callers inspect them with compositeFields.
+					if ai := p.allocInfo(a); !ai.unknown && len(ai.stores) > 0 && (okk || zero) {
 						for _, s := range sts {
 							walk(s.Val, d+1)
+						}
+						if zero {
+							// the variable may still hold its zero value here
+							out = append(out, zeroConst(x.Type()))
 						}
 						return
 					}
@@ -778,4 +787,20 @@ func (p *Program) possibleValues(v ssa.Value) []ssa.Value {
 	}
 	walk(v, 0)
 	return out
+}
+
+// zeroConst returns the zero value of t as an SSA constant (nil for nil-able types).
+func zeroConst(t types.Type) ssa.Value {
+	switch u := t.Underlying().(type) {
+	case *types.Basic:
+		switch {
+		case u.Info()&types.IsBoolean != 0:
+			return ssa.NewConst(constant.MakeBool(false), t)
+		case u.Info()&types.IsString != 0:
+			return ssa.NewConst(constant.MakeString(""), t)
+		case u.Info()&types.IsNumeric != 0:
+			return ssa.NewConst(constant.MakeInt64(0), t)
+		}
+	}
+	return ssa.NewConst(nil, t)
 }
